@@ -294,11 +294,16 @@ def run_C01(ctx):
     ctx.extra['grammars'] = len(out['grammars'])
     if not had_counterexample(ctx):
         acc = [d for d in i6_diffs(out) if ("'kind': 'A'" in str(d['case'].get('expected')) or str(d['case'].get('expected', '')).startswith('A ') or str(d['case'].get('observed', '')).startswith('A|'))]
-        report_corr(ctx, acc + backend_diffs(be) + backend_diffs_of_i6(out), {'I2', 'I4', 'I5', 'I6'}, 'C01')
+        report_corr(ctx, acc + backend_diffs(be) + backend_diffs_of_i6(out), {'I1', 'I2', 'I4', 'I5', 'I6'}, 'C01')
 
 
 def backend_diffs_of_i6(out):
-    return []
+    """End-to-end differences on the grammars of the generated-parser corpus: the model built from the text of each file
+    against the tables the implementation built from it."""
+    res = []
+    for (gname, itf, what) in out.get('e2e', []):
+        res.append(dict(interface=itf, what='grammar %s: %s' % (gname, what), case=case_of(out, gname, interface=itf, detail=what)))
+    return res
 
 
 # ------------------------------------------------------------------ C07
@@ -357,7 +362,7 @@ def run_C07(ctx):
     ctx.extra['shared_action_text_runs'] = ntw
     if not had_counterexample(ctx):
         vd = [d for d in i6_diffs(out) if 'value differs' in d['what']]
-        report_corr(ctx, vd, {'I6'}, 'C07')
+        report_corr(ctx, vd + backend_diffs_of_i6(out), {'I1', 'I6'}, 'C07')
 
 
 # ------------------------------------------------------------------ C08 / C05 (variants)
@@ -408,7 +413,7 @@ def run_C08(ctx):
         if gname != '__node__':
             ctx.violation('counterexample', 'TypeScript parser of grammar %s does not run: %s' % (gname, msg), case_of(out, gname, variant='ts', observed=msg), interface='I6')
     if not had_counterexample(ctx):
-        report_corr(ctx, i6_diffs(out), {'I6'}, 'C08')
+        report_corr(ctx, i6_diffs(out) + backend_diffs_of_i6(out), {'I1', 'I5', 'I6'}, 'C08')
 
 
 def run_C05(ctx):
@@ -518,7 +523,7 @@ def run_C02(ctx):
                     ctx.sample(dict(grammar=gname, variant=vn, sentence=payload, result=raw))
     ctx.extra['lalr1_grammars'] = ngr
     if not had_counterexample(ctx):
-        report_corr(ctx, backend_diffs(be) + i6_diffs(out), {'I2', 'I3', 'I4', 'I5', 'I6'}, 'C02')
+        report_corr(ctx, backend_diffs(be) + i6_diffs(out) + backend_diffs_of_i6(out), {'I1', 'I2', 'I3', 'I4', 'I5', 'I6'}, 'C02')
 
 
 def conflict_free(out, gname):
